@@ -78,7 +78,7 @@ claim("C01",
 claim("C02",
       "Lean theorems KB.Props.C02 / C02Store over KB.Sys: dealt revisions are unique; a request that returned before another began has the smaller "
       "revision (ghost stamps of the monotone counter); per key the applied revisions strictly increase; header >= data for write failure responses, "
-      "Get and List (after fix 2e45001). Correspondence: gated schedules + sequential histories with reads above the committed revision.",
+      "Get and List (after fix 2e45001). Correspondence: gated schedules + sequential histories with reads above the committed revision. KB.Props.C02Lag: the per-key history stays strictly increasing, and above every revision the key already has in the store, from ANY well-formed store with an arbitrarily lagging allocator (the local drift / delete / creator guards, each shown necessary by a decided witness); checked against the real code by lagging-allocator scripts (lowrev).",
       TB + "Real time is observed at script granularity in the correspondence runs.",
       "Lean 4 proof (inductive invariants over all schedules) + scheduled differential correspondence", "DESIGN.md §5 C02")
 claim("C06",
